@@ -230,6 +230,32 @@ def run_config(cfg):
                 else:
                     v, mo, _ = solve.prove_eq(d, ref)
                     res.ob(v, "cdp_delta: returned value is the published bound at the searched order", cand(mo))
+            if part == "delta":
+                # translator validation: this path's symbolic result, evaluated at concrete points that satisfy the path condition, against the
+                # real function run in floats with the same cut
+                import random
+                rng = random.Random(len(ST.pathcond) * 7919 + cfg["K"])
+                for _ in range(6):
+                    env = {"rho": math.exp(rng.uniform(-4, 2)), "eps": math.exp(rng.uniform(-3, 3))}
+                    try:
+                        if not all(solve.evalf(c, env) for c in ST.pathcond):
+                            continue
+                        sym = solve.eval_sym(d, env) if isinstance(d, Sym) else float(d)
+                    except (KeyError, OverflowError, ValueError, ZeroDivisionError, TypeError):
+                        continue
+                    mod.__dict__["math"] = math
+                    try:
+                        real = float(_MOD["real_delta"](env["rho"], env["eps"]))
+                    except (OverflowError, ValueError, ZeroDivisionError):
+                        real = None
+                    finally:
+                        mod.__dict__["math"] = MATH
+                    if real is None:
+                        continue
+                    res.fidelity += 1
+                    if not values.close(sym, real, 1e-7):
+                        res.fidelity_fail.append("cdp_delta(K=%d) at %s: symbolic %r vs real %r" % (cfg["K"], env, sym, real))
+                    break
             if len(res.samples) < 2:
                 res.samples.append({"path": [str(c)[:100] for c in ST.pathcond][:4], "part": part})
         finally:
